@@ -461,6 +461,70 @@ Proof.
   intros Hin. apply mem_list_In in Hin. rewrite Hin in H1. discriminate.
 Qed.
 
+(* names up to ASCII case: [name_eqb] decides equality of the keys *)
+Definition name_equiv (a b : list N) : Prop := name_key a = name_key b.
+
+Lemma name_eqb_equiv : forall a b, name_eqb a b = true <-> name_equiv a b.
+Proof. intros a b. unfold name_eqb, name_equiv. apply list_eqb_eq. Qed.
+
+Lemma name_eqb_refl : forall a, name_eqb a a = true.
+Proof. intros a. apply name_eqb_equiv. reflexivity. Qed.
+
+Lemma name_eqb_false : forall a b, name_eqb a b = false <-> ~ name_equiv a b.
+Proof.
+  intros a b. rewrite <- name_eqb_equiv. destruct (name_eqb a b); split; intros H; congruence.
+Qed.
+
+Lemma name_eqb_sym : forall a b, name_eqb a b = name_eqb b a.
+Proof.
+  intros a b. destruct (name_eqb a b) eqn:E1; destruct (name_eqb b a) eqn:E2; try reflexivity.
+  - apply name_eqb_equiv in E1. apply name_eqb_false in E2. exfalso. apply E2. symmetry. exact E1.
+  - apply name_eqb_equiv in E2. apply name_eqb_false in E1. exfalso. apply E1. symmetry. exact E2.
+Qed.
+
+(* the test only looks at the keys: equivalent names are interchangeable on either side *)
+Lemma name_eqb_key_l : forall a a' b, name_equiv a a' -> name_eqb a b = name_eqb a' b.
+Proof. intros a a' b H. unfold name_eqb. unfold name_equiv in H. rewrite H. reflexivity. Qed.
+Lemma name_eqb_key_r : forall a b b', name_equiv b b' -> name_eqb a b = name_eqb a b'.
+Proof. intros a b b' H. unfold name_eqb. unfold name_equiv in H. rewrite H. reflexivity. Qed.
+
+Lemma mem_name_spec : forall x l, mem_name x l = true <-> exists y, In y l /\ name_equiv y x.
+Proof.
+  intros x. induction l as [|y r IH]; cbn [mem_name In].
+  - split; [discriminate|intros [y [[] _]]].
+  - rewrite orb_true_iff, name_eqb_equiv, IH. split.
+    + intros [H|[z [Hz Hzx]]]; [exists y; auto|exists z; auto].
+    + intros [z [[->|Hz] Hzx]]; [left; exact Hzx|right; exists z; auto].
+Qed.
+
+Lemma mem_name_In : forall x l, In x l -> mem_name x l = true.
+Proof. intros x l H. apply mem_name_spec. exists x. split; [exact H|reflexivity]. Qed.
+
+Lemma mem_name_key : forall x x' l, name_equiv x x' -> mem_name x l = mem_name x' l.
+Proof.
+  intros x x' l H. induction l as [|y r IH]; [reflexivity|]. cbn [mem_name].
+  rewrite IH, (name_eqb_key_r y H). reflexivity.
+Qed.
+
+Lemma nodup_namesb_keys : forall l, nodup_namesb l = true -> NoDup (map name_key l).
+Proof.
+  induction l as [|x r IH]; cbn [nodup_namesb map]; intros H; [constructor|].
+  apply andb_prop in H. destruct H as [H1 H2]. constructor; [|apply IH; exact H2].
+  intros Hin. apply in_map_iff in Hin. destruct Hin as [y [Hy Hin]].
+  assert (M : mem_name x r = true) by (apply mem_name_spec; exists y; split; [exact Hin|exact Hy]).
+  rewrite M in H1. discriminate.
+Qed.
+
+Lemma NoDup_map_NoDup : forall (A B : Type) (f : A -> B) l, NoDup (map f l) -> NoDup l.
+Proof.
+  intros A B f. induction l as [|x r IH]; intros H; [constructor|]. cbn [map] in H.
+  inversion H as [|? ? Hn Hr]; subst. constructor; [|apply IH; exact Hr].
+  intros Hin. apply Hn. apply in_map. exact Hin.
+Qed.
+
+Lemma nodup_namesb_NoDup : forall l, nodup_namesb l = true -> NoDup l.
+Proof. intros l H. apply (NoDup_map_NoDup name_key). apply nodup_namesb_keys. exact H. Qed.
+
 (* ------------------------------------------------------------------ seqN *)
 Lemma seqN_from_nth : forall n s i, (i < n)%nat ->
   nth_error (seqN_from s n) i = Some (s + N.of_nat i).
@@ -1190,7 +1254,9 @@ Qed.
    of the directory array then cannot meet another entry *)
 Definition names_unique (c : container) : Prop := names_uniqueb c = true.
 Lemma names_unique_NoDup : forall c, names_unique c -> NoDup (all_names c).
-Proof. intros c H. apply nodup_listb_NoDup. exact H. Qed.
+Proof. intros c H. apply nodup_namesb_NoDup. exact H. Qed.
+Lemma names_unique_keys : forall c, names_unique c -> NoDup (map name_key (all_names c)).
+Proof. intros c H. apply nodup_namesb_keys. exact H. Qed.
 
 Lemma stream_has_chain : forall c l n b, length (l_chains l) = length (c_streams c) ->
   In (n, b) (c_streams c) -> exists ch, In ((n, b), ch) (stream_chains c l).
@@ -2165,23 +2231,23 @@ Proof.
 Qed.
 
 Lemma min_slot_none : forall n tbl, min_slot n tbl = None ->
-  forall s it, In (s, it) tbl -> item_name it <> n.
+  forall s it, In (s, it) tbl -> ~ name_equiv (item_name it) n.
 Proof.
   intros n. induction tbl as [|[s0 it0] r IH]; intros H s it Hin; [destruct Hin|].
-  cbn [min_slot] in H. destruct (list_eqb (item_name it0) n) eqn:E.
+  cbn [min_slot] in H. destruct (name_eqb (item_name it0) n) eqn:E.
   - destruct (min_slot n r); discriminate.
   - destruct Hin as [Heq|Hin].
-    + inversion Heq; subst. intros Hc. rewrite Hc, list_eqb_refl in E. discriminate.
+    + inversion Heq; subst. apply name_eqb_false. exact E.
     + apply (IH H _ _ Hin).
 Qed.
 
 Lemma min_slot_some : forall n tbl s, min_slot n tbl = Some s ->
-  (exists it, In (s, it) tbl /\ item_name it = n) /\
-  (forall s' it', In (s', it') tbl -> item_name it' = n -> s <= s').
+  (exists it, In (s, it) tbl /\ name_equiv (item_name it) n) /\
+  (forall s' it', In (s', it') tbl -> name_equiv (item_name it') n -> s <= s').
 Proof.
   intros n. induction tbl as [|[s0 it0] r IH]; intros s H; [discriminate|].
-  cbn [min_slot] in H. destruct (list_eqb (item_name it0) n) eqn:E.
-  - apply list_eqb_eq in E. destruct (min_slot n r) as [s1|] eqn:Er.
+  cbn [min_slot] in H. destruct (name_eqb (item_name it0) n) eqn:E.
+  - apply name_eqb_equiv in E. destruct (min_slot n r) as [s1|] eqn:Er.
     + destruct (IH s1 eq_refl) as [[it1 [Hin1 Hn1]] Hmin1]. inversion H; subst s.
       split.
       * destruct (N.min_spec s0 s1) as [[_ ->]|[_ ->]].
@@ -2196,12 +2262,12 @@ Proof.
         exfalso. apply (@min_slot_none _ _ Er _ _ Hin Hn').
   - destruct (IH s H) as [[it1 [Hin1 Hn1]] Hmin1]. split.
     + exists it1. split; [right; exact Hin1|exact Hn1].
-    + intros s' it' [Heq|Hin] Hn'; [inversion Heq; subst s' it'; rewrite Hn', list_eqb_refl in E; discriminate|].
+    + intros s' it' [Heq|Hin] Hn'; [inversion Heq; subst s' it'; apply name_eqb_false in E; contradiction|].
       apply (Hmin1 _ _ Hin Hn').
 Qed.
 
 Lemma min_slot_none_iff : forall n tbl,
-  (forall s it, In (s, it) tbl -> item_name it <> n) -> min_slot n tbl = None.
+  (forall s it, In (s, it) tbl -> ~ name_equiv (item_name it) n) -> min_slot n tbl = None.
 Proof.
   intros n tbl H. destruct (min_slot n tbl) as [s|] eqn:E; [|reflexivity].
   destruct (min_slot_some _ _ E) as [[it [Hin Hn]] _]. exfalso. apply (H _ _ Hin Hn).
@@ -2240,12 +2306,15 @@ Proof.
   intros c l s it H. unfold slot_table in H. apply in_combine_r in H. apply (items_names _ _ _ H).
 Qed.
 
-Lemma valid_name_not_special : forall n, valid_nameb n = true -> n <> [] /\ n <> ROOT_NAME.
+Lemma valid_name_not_special : forall n, valid_nameb n = true -> n <> [] /\ ~ name_equiv n ROOT_NAME.
 Proof.
-  intros n H. unfold valid_nameb in H. split_andb H. split; intros ->.
-  - cbn in H. discriminate.
-  - rewrite list_eqb_refl in V. discriminate.
+  intros n H. unfold valid_nameb in H. split_andb H. split.
+  - intros ->. cbn in H. discriminate.
+  - apply name_eqb_false. apply negb_true_iff. exact V.
 Qed.
+
+Lemma name_equiv_nil : forall n, name_equiv [] n -> n = [].
+Proof. intros [|x n] H; [reflexivity|discriminate H]. Qed.
 
 (* the names of the directory array of a written container: the root entry, unused slots (empty
    name), and the names of the container *)
@@ -2261,7 +2330,7 @@ Qed.
 
 (* the flat scan on a written container: the entry in the LOWEST slot among the objects carrying
    the name — whatever storage holds it, storage or stream — or none *)
-Theorem find_dir_first : forall c l n, valid_layout c l -> n <> [] -> n <> ROOT_NAME ->
+Theorem find_dir_first : forall c l n, valid_layout c l -> n <> [] -> ~ name_equiv n ROOT_NAME ->
   find_dir n (parsed_dirs c l) =
   match first_slot c l n with
   | Some s => Some (entry_at c l s)
@@ -2269,17 +2338,19 @@ Theorem find_dir_first : forall c l n, valid_layout c l -> n <> [] -> n <> ROOT_
   end.
 Proof.
   intros c l n Hv Hne Hnr. unfold find_dir, parsed_dirs, seqN, first_slot.
-  set (p := fun d : dirent => list_eqb (d_name d) n).
+  set (p := fun d : dirent => name_eqb (d_name d) n).
   set (f := entry_at c l).
-  assert (Hother : forall i, (forall it, In (i, it) (slot_table c l) -> item_name it <> n) -> p (f i) = false).
-  { intros i Hi. unfold p, f. apply list_eqb_neq.
-    destruct (@entry_at_name c l i Hv) as [E|[E|[it [Hin E]]]]; rewrite E; try congruence.
-    apply (Hi _ Hin). }
+  assert (Hother : forall i, (forall it, In (i, it) (slot_table c l) -> ~ name_equiv (item_name it) n) -> p (f i) = false).
+  { intros i Hi. unfold p, f. apply name_eqb_false.
+    destruct (@entry_at_name c l i Hv) as [E|[E|[it [Hin E]]]]; rewrite E.
+    - intros H. apply Hnr. symmetry. exact H.
+    - intros H. apply Hne. apply name_equiv_nil. exact H.
+    - apply (Hi _ Hin). }
   destruct (min_slot n (slot_table c l)) as [s|] eqn:E.
   - destruct (min_slot_some _ _ E) as [[it [Hin Hn]] Hmin].
     destruct (dir_item_at _ _ Hv Hin) as [Hit [Hs1 Hs2]].
     apply (@find_map_seqN_from _ p f (nslots c l) 0 s); [lia|lia| |].
-    + unfold p, f. destruct (entry_at_item _ _ Hv Hin) as [En _]. rewrite En, Hn. apply list_eqb_refl.
+    + unfold p, f. destruct (entry_at_item _ _ Hv Hin) as [En _]. rewrite En. apply name_eqb_equiv. exact Hn.
     + intros i _ Hi. apply Hother. intros it' Hin' Hn'. pose proof (Hmin _ _ Hin' Hn'). lia.
   - apply find_map_seqN_none. intros i _ _. apply Hother. intros it' Hin'. apply (@min_slot_none _ _ E _ _ Hin').
 Qed.
@@ -2392,7 +2463,7 @@ Qed.
 
 (* a name carried by no object is not found *)
 Lemma get_stream_absent_flat : forall c l cf r n pre, valid_layout c l -> flat_root c l -> written_cfb c l cf r ->
-  n <> [] -> n <> ROOT_NAME -> first_slot c l n = None -> get_stream cf (pre ++ [n]) r = Err ERR_NOT_FOUND.
+  n <> [] -> ~ name_equiv n ROOT_NAME -> first_slot c l n = None -> get_stream cf (pre ++ [n]) r = Err ERR_NOT_FOUND.
 Proof.
   intros c l cf r n pre Hv Hfl (Hdirs & _) Hne Hnr Hnone. unfold get_stream.
   rewrite Hdirs, find_entry_flat by (apply children_root_flat; assumption).
@@ -2410,8 +2481,9 @@ Proof.
   unfold first_slot. destruct (min_slot n (slot_table c l)) as [s1|] eqn:E.
   - destruct (min_slot_some _ _ E) as [[it [Hin1 Hn1]] _]. f_equal.
     assert (it = stream_item l ((n, b), ch)).
-    { apply (NoDup_map_inj_on (fun it => fst (fst (fst it))) (items c l));
-        [rewrite (items_names_eq c l Hlc); exact Hndn| | |exact Hn1].
+    { apply (NoDup_map_inj_on (fun it => name_key (fst (fst (fst it)))) (items c l));
+        [rewrite <- (map_map (fun it => fst (fst (fst it))) name_key), (items_names_eq c l Hlc);
+         exact (names_unique_keys Hu)| | |exact Hn1].
       - unfold slot_table in Hin1. apply (in_combine_r _ _ _ _ Hin1).
       - unfold slot_table in Hin. apply (in_combine_r _ _ _ _ Hin). }
     subst it.
@@ -2708,65 +2780,70 @@ Qed.
 End Tree.
 
 (* ------------------------------------------------------------------ objects, slots, hierarchy *)
-Lemma mem_key_In : forall x l, mem_key x l = true <-> In x l.
+Definition key_of (y : N * list N) : N * list N := (fst y, name_key (snd y)).
+
+Lemma mem_key_spec : forall x l, mem_key x l = true <-> In (key_of x) (map key_of l).
 Proof.
-  intros [xp xn]. induction l as [|[yp yn] r IH]; cbn [mem_key In fst snd]; [split; [discriminate|tauto]|].
-  rewrite orb_true_iff, andb_true_iff, N.eqb_eq, list_eqb_eq, IH. split.
+  intros [xp xn]. induction l as [|[yp yn] r IH]; cbn [mem_key In map fst snd]; [split; [discriminate|tauto]|].
+  rewrite orb_true_iff, andb_true_iff, N.eqb_eq, name_eqb_equiv, IH. unfold key_of, name_equiv. cbn [fst snd]. split.
   - intros [[-> ->]|H]; [left; reflexivity|right; exact H].
   - intros [H|H]; [inversion H; left; split; reflexivity|right; exact H].
 Qed.
 
-Lemma nodup_keyb_NoDup : forall l, nodup_keyb l = true -> NoDup l.
+Lemma nodup_keyb_NoDup : forall l, nodup_keyb l = true -> NoDup (map key_of l).
 Proof.
   induction l as [|x r IH]; intros H; [constructor|]. cbn [nodup_keyb] in H.
-  apply andb_prop in H. destruct H as [H1 H2]. constructor; [|apply IH; exact H2].
-  intros Hin. apply mem_key_In in Hin. rewrite Hin in H1. discriminate.
+  apply andb_prop in H. destruct H as [H1 H2]. cbn [map]. constructor; [|apply IH; exact H2].
+  intros Hin. apply mem_key_spec in Hin. rewrite Hin in H1. discriminate.
 Qed.
 
+(* [MS-CFB] uniqueness: two objects of one storage whose names agree up to case are one object *)
 Lemma hier_facts : forall c, hier_okb c = true ->
   (forall k, parent_of c k <= N.of_nat (length (c_storages c))) /\
   (forall j, (j < length (c_storages c))%nat -> parent_of c j <= N.of_nat j) /\
-  (forall k k', (k < length (all_names c))%nat -> (k' < length (all_names c))%nat ->
-     parent_of c k = parent_of c k' -> nth_error (all_names c) k = nth_error (all_names c) k' -> k = k').
+  (forall k k' n n', parent_of c k = parent_of c k' ->
+     nth_error (all_names c) k = Some n -> nth_error (all_names c) k' = Some n' -> name_equiv n n' -> k = k').
 Proof.
   intros c H. unfold hier_okb in H. apply andb_prop in H. destruct H as [H H3].
   apply andb_prop in H. destruct H as [H1 H2]. split; [|split].
   - intros k. unfold parent_of. destruct (nth_in_or_default k (c_parents c) 0) as [Hin|E]; [|rewrite E; lia].
     apply N.leb_le. apply (forallb_In _ _ H1 _ Hin).
   - intros j Hj. apply N.leb_le. apply (forallb_In _ _ H2 j). apply in_seq. lia.
-  - intros k k' Hk Hk' Hp Hn. apply nodup_keyb_NoDup in H3. unfold item_keys in H3.
+  - intros k k' n n' Hp En En' Hq. apply nodup_keyb_NoDup in H3. unfold item_keys in H3.
+    assert (Hk : (k < length (all_names c))%nat) by (apply nth_error_Some; rewrite En; discriminate).
+    assert (Hk' : (k' < length (all_names c))%nat) by (apply nth_error_Some; rewrite En'; discriminate).
     set (ps := map (parent_of c) (seq 0 (length (all_names c)))) in *.
     assert (Hlen : length ps = length (all_names c)) by (unfold ps; rewrite map_length, seq_length; reflexivity).
     assert (Hps : forall i, (i < length (all_names c))%nat -> nth_error ps i = Some (parent_of c i)).
     { intros i Hi. unfold ps. rewrite (map_nth_error (parent_of c) i (seq 0 (length (all_names c))) (d := i)); [reflexivity|].
       rewrite nth_error_nth' with (d := O) by (rewrite seq_length; exact Hi). rewrite seq_nth by exact Hi. reflexivity. }
-    destruct (nth_error (all_names c) k) as [n|] eqn:En; [|apply nth_error_None in En; lia].
-    symmetry in Hn.
-    apply (proj1 (NoDup_nth_error (combine ps (all_names c))) H3).
-    + rewrite combine_length, Hlen. lia.
-    + rewrite (nth_error_combine _ _ k (Hps k Hk) En), (nth_error_combine _ _ k' (Hps k' Hk') Hn), Hp. reflexivity.
+    apply (proj1 (NoDup_nth_error (map key_of (combine ps (all_names c)))) H3).
+    + rewrite map_length, combine_length, Hlen. lia.
+    + rewrite (map_nth_error key_of k _ (nth_error_combine _ _ k (Hps k Hk) En)),
+              (map_nth_error key_of k' _ (nth_error_combine _ _ k' (Hps k' Hk') En')).
+      unfold key_of. cbn [fst snd]. rewrite Hp. unfold name_equiv in Hq. rewrite Hq. reflexivity.
 Qed.
 
 Lemma child_index_some : forall c p n names k0 k, child_index c p n k0 names = Some k ->
-  (k0 <= k)%nat /\ nth_error names (k - k0) = Some n /\ parent_of c k = p.
+  (k0 <= k)%nat /\ (exists n', nth_error names (k - k0) = Some n' /\ name_equiv n' n) /\ parent_of c k = p.
 Proof.
   intros c p n. induction names as [|n' r IH]; intros k0 k H; [discriminate|]. cbn [child_index] in H.
-  destruct (list_eqb n' n && (parent_of c k0 =? p)) eqn:E.
-  - inversion H; subst k. apply andb_prop in E. destruct E as [E1 E2]. apply list_eqb_eq in E1. apply N.eqb_eq in E2.
-    subst n'. rewrite Nat.sub_diag. split; [lia|split; [reflexivity|exact E2]].
+  destruct (name_eqb n' n && (parent_of c k0 =? p)) eqn:E.
+  - inversion H; subst k. apply andb_prop in E. destruct E as [E1 E2]. apply name_eqb_equiv in E1. apply N.eqb_eq in E2.
+    rewrite Nat.sub_diag. split; [lia|split; [exists n'; split; [reflexivity|exact E1]|exact E2]].
   - destruct (IH _ _ H) as [H1 [H2 H3]]. split; [lia|split; [|exact H3]].
     replace (k - k0)%nat with (S (k - S k0)) by lia. exact H2.
 Qed.
 
 Lemma child_index_none : forall c p n names k0, child_index c p n k0 names = None ->
-  forall j, nth_error names j = Some n -> parent_of c (k0 + j) <> p.
+  forall j n', nth_error names j = Some n' -> name_equiv n' n -> parent_of c (k0 + j) <> p.
 Proof.
-  intros c p n. induction names as [|n' r IH]; intros k0 H j Hj; [destruct j; discriminate|]. cbn [child_index] in H.
-  destruct (list_eqb n' n && (parent_of c k0 =? p)) eqn:E; [discriminate|].
+  intros c p n. induction names as [|n0 r IH]; intros k0 H j n' Hj Hq; [destruct j; discriminate|]. cbn [child_index] in H.
+  destruct (name_eqb n0 n && (parent_of c k0 =? p)) eqn:E; [discriminate|].
   destruct j as [|j].
-  - cbn [nth_error] in Hj. inversion Hj; subst n'. rewrite list_eqb_refl in E. cbn [andb] in E.
+  - cbn [nth_error] in Hj. inversion Hj; subst n0. apply name_eqb_equiv in Hq. rewrite Hq in E. cbn [andb] in E.
     apply N.eqb_neq in E. rewrite Nat.add_0_r. exact E.
-  - cbn [nth_error] in Hj. replace (k0 + S j)%nat with (S k0 + j)%nat by lia. apply (IH _ H _ Hj).
+  - cbn [nth_error] in Hj. replace (k0 + S j)%nat with (S k0 + j)%nat by lia. apply (IH _ H _ _ Hj Hq).
 Qed.
 
 Section Objects.
@@ -2936,11 +3013,14 @@ Proof.
 Qed.
 
 Lemma name_is_slot : forall k n, (k < nobj)%nat ->
-  name_is dirs n (nth k (l_slots l) 0) = true <-> nth_error (all_names c) k = Some n.
+  name_is dirs n (nth k (l_slots l) 0) = true <->
+  exists n', nth_error (all_names c) k = Some n' /\ name_equiv n' n.
 Proof.
   intros k n Hk. unfold name_is, dirs.
   rewrite (@nthN_parsed c l _ (proj2 (object_slot_range Hv Hk))).
-  rewrite (object_entry_name Hv Hk). rewrite list_eqb_eq. split; [intros ->; reflexivity|intros H; inversion H; reflexivity].
+  rewrite (object_entry_name Hv Hk). rewrite name_eqb_equiv. split.
+  - intros H. eexists. split; [reflexivity|exact H].
+  - intros [n' [H Hq]]. inversion H; subst n'. exact Hq.
 Qed.
 
 (* one step of Cfb::find: the entry of that name among the children of object p *)
@@ -2953,16 +3033,19 @@ Proof.
   destruct (N.le_gt_cases p (N.of_nat nst)) as [Hst|Hst].
   - pose proof (children_of_object Hst) as Hkids.
     destruct (child_index c p n 0 (all_names c)) as [k|] eqn:Ec; cbn [option_map].
-    + destruct (@child_index_some _ _ _ _ _ _ Ec) as [_ [Hn Hpk]]. rewrite Nat.sub_0_r in Hn.
+    + destruct (@child_index_some _ _ _ _ _ _ Ec) as [_ [[n1 [Hn Hq1]] Hpk]]. rewrite Nat.sub_0_r in Hn.
       assert (Hk : (k < nobj)%nat) by (unfold nobj; rewrite <- Hnn; apply nth_error_Some; rewrite Hn; discriminate).
       rewrite (obj_slot_S c). apply find_unique.
       * apply Hkids. apply children_slots_In. exists k. repeat split; assumption.
-      * apply (name_is_slot n Hk). exact Hn.
+      * apply (name_is_slot n Hk). exists n1. split; assumption.
       * intros y Hy Hny. apply Hkids in Hy. apply children_slots_In in Hy. destruct Hy as [k' [Hk' [<- Hp']]].
-        apply (name_is_slot n Hk') in Hny. f_equal. apply Hkey; try (rewrite Hnn; assumption); congruence.
+        apply (name_is_slot n Hk') in Hny. destruct Hny as [n2 [Hn2 Hq2]]. f_equal.
+        apply (Hkey k' k n2 n1); [congruence|exact Hn2|exact Hn|].
+        unfold name_equiv in *. congruence.
     + apply find_all_false. intros y Hy. apply Hkids in Hy. apply children_slots_In in Hy.
       destruct Hy as [k' [Hk' [<- Hp']]]. destruct (name_is dirs n (nth k' (l_slots l) 0)) eqn:E; [|reflexivity].
-      apply (name_is_slot n Hk') in E. exfalso. apply (@child_index_none _ _ _ _ _ Ec k' E). exact Hp'.
+      apply (name_is_slot n Hk') in E. destruct E as [n2 [Hn2 Hq2]].
+      exfalso. apply (@child_index_none _ _ _ _ _ Ec k' n2 Hn2 Hq2). exact Hp'.
   - rewrite children_of_stream by lia. cbn [find].
     destruct (child_index c p n 0 (all_names c)) as [k|] eqn:Ec; [|reflexivity].
     destruct (@child_index_some _ _ _ _ _ _ Ec) as [_ [_ Hpk]]. pose proof (Hpar k). unfold nst in Hst. lia.
@@ -2973,23 +3056,24 @@ Proof.
   pose proof (nobj_names Hv) as Hnn.
   induction path as [|n rest IH]; intros p q Hp H; cbn [resolve] in H; [inversion H; subst; exact Hp|].
   destruct (child_index c p n 0 (all_names c)) as [k|] eqn:Ec; [|discriminate].
-  destruct (@child_index_some _ _ _ _ _ _ Ec) as [_ [Hn _]]. rewrite Nat.sub_0_r in Hn.
+  destruct (@child_index_some _ _ _ _ _ _ Ec) as [_ [[n1 [Hn _]] _]]. rewrite Nat.sub_0_r in Hn.
   assert (Hk : (k < nobj)%nat) by (unfold nobj; rewrite <- Hnn; apply nth_error_Some; rewrite Hn; discriminate).
   apply (IH (N.of_nat (S k)) q); [lia|exact H].
 Qed.
 
-(* the object a non-empty path ends on carries the last name of the path *)
+(* the object a non-empty path ends on carries the last name of the path, up to case *)
 Lemma resolve_last : forall path p q, path <> [] -> resolve c p path = Some q ->
-  exists k, q = N.of_nat (S k) /\ (k < nobj)%nat /\ nth_error (all_names c) k = last_opt path.
+  exists k n' m, q = N.of_nat (S k) /\ (k < nobj)%nat /\ nth_error (all_names c) k = Some n' /\
+                 last_opt path = Some m /\ name_equiv n' m.
 Proof.
   pose proof (nobj_names Hv) as Hnn.
   induction path as [|n rest IH]; intros p q Hne H; [contradiction|]. cbn [resolve] in H.
   destruct (child_index c p n 0 (all_names c)) as [k|] eqn:Ec; [|discriminate].
-  destruct (@child_index_some _ _ _ _ _ _ Ec) as [_ [Hn _]]. rewrite Nat.sub_0_r in Hn.
+  destruct (@child_index_some _ _ _ _ _ _ Ec) as [_ [[n1 [Hn Hq1]] _]]. rewrite Nat.sub_0_r in Hn.
   assert (Hk : (k < nobj)%nat) by (unfold nobj; rewrite <- Hnn; apply nth_error_Some; rewrite Hn; discriminate).
   destruct rest as [|n2 rest2].
-  - cbn [resolve] in H. inversion H; subst q. exists k. repeat split; assumption.
-  - destruct (IH _ _ ltac:(discriminate) H) as [k2 [E [Hk2 Hl]]]. exists k2. repeat split; assumption.
+  - cbn [resolve] in H. inversion H; subst q. exists k, n1, n. repeat split; assumption.
+  - destruct (IH _ _ ltac:(discriminate) H) as [k2 [n' [m [E [Hk2 [Hl [Hm Hq]]]]]]]. exists k2, n', m. repeat split; assumption.
 Qed.
 
 (* the loop of Cfb::find from the entry of any object: the lookup of the specification *)
@@ -2999,7 +3083,7 @@ Proof.
   pose proof (nobj_names Hv) as Hnn.
   induction path as [|n rest IH]; intros p Hp; [reflexivity|]. cbn [find_from resolve].
   rewrite (find_child n Hp). destruct (child_index c p n 0 (all_names c)) as [k|] eqn:Ec; cbn [option_map]; [|reflexivity].
-  destruct (@child_index_some _ _ _ _ _ _ Ec) as [_ [Hn _]]. rewrite Nat.sub_0_r in Hn.
+  destruct (@child_index_some _ _ _ _ _ _ Ec) as [_ [[n1 [Hn _]] _]]. rewrite Nat.sub_0_r in Hn.
   assert (Hk : (k < nobj)%nat) by (unfold nobj; rewrite <- Hnn; apply nth_error_Some; rewrite Hn; discriminate).
   apply IH. lia.
 Qed.
@@ -3013,7 +3097,14 @@ Proof.
   - pose proof (Hst O ltac:(unfold nst in E; lia)). lia.
 Qed.
 
-Definition plain (n : list N) : Prop := n <> [] /\ n <> ROOT_NAME.
+(* a name the flat scan cannot confuse with the root entry or an unused slot *)
+Definition plain (n : list N) : Prop := n <> [] /\ ~ name_equiv n ROOT_NAME.
+Lemma plain_equiv : forall n n', name_equiv n n' -> plain n -> plain n'.
+Proof.
+  intros n n' Hq [H1 H2]. split.
+  - intros ->. apply H1. apply name_equiv_nil. symmetry. exact Hq.
+  - intros H. apply H2. unfold name_equiv in *. congruence.
+Qed.
 
 (* MAIN (lookup): Cfb::find on the directory of a written container whose links are a tree is the
    lookup of the specification, for every path — wherever the entries sit in the array *)
@@ -3068,8 +3159,8 @@ Proof.
   inversion H; subst b'.
   assert (Hne : path <> []) by (intros ->; cbn [resolve] in Er; inversion Er; lia).
   split; [exact Hne|].
-  destruct (@resolve_last c l Hv path 0 p Hne Er) as [k [Ek [Hk Hl]]]. split.
-  - intros m Hm. rewrite Hm in Hl. apply (names_plain _ Hl).
+  destruct (@resolve_last c l Hv path 0 p Hne Er) as [k [n' [m' [Ek [Hk [Hl [Hm' Hq]]]]]]]. split.
+  - intros m Hm. rewrite Hm in Hm'. inversion Hm'; subst m'. apply (plain_equiv Hq). apply (names_plain _ Hl).
   - exists (N.to_nat (p - N.of_nat nst) - 1)%nat, n. split; [|exact En]. f_equal. lia.
 Qed.
 
@@ -3125,7 +3216,7 @@ Proof.
 Qed.
 
 Lemma workbook_plain : plain WORKBOOK /\ plain BOOK.
-Proof. repeat split; discriminate. Qed.
+Proof. repeat split; try discriminate; intros H; vm_compute in H; discriminate. Qed.
 
 (* MAIN (Xls::new): the bytes handed to the BIFF parser are those of the ROOT storage's Workbook
    stream, or of its Book stream when the root has no Workbook — wherever the entries of embedded
@@ -3145,7 +3236,7 @@ Proof.
     { destruct Hw as (Hdirs & _). unfold get_stream.
       rewrite Hdirs, (@find_entry_resolve c l Hv Ht [WORKBOOK]); [|discriminate|intros m Hm; inversion Hm; exact Pw].
       destruct (resolve c 0 [WORKBOOK]) as [p|] eqn:Er; [|reflexivity]. exfalso.
-      destruct (@resolve_last c l Hv [WORKBOOK] 0 p ltac:(discriminate) Er) as [k [Ek [Hk _]]].
+      destruct (@resolve_last c l Hv [WORKBOOK] 0 p ltac:(discriminate) Er) as [k [n1 [m1 [Ek [Hk _]]]]].
       unfold root_storage_named in Hrs. rewrite Er in Hrs. unfold spec_path in Ew. rewrite Er in Ew.
       fold nst in Hrs, Ew. destruct (N.of_nat nst <? p) eqn:E.
       - apply N.ltb_lt in E.
@@ -3169,65 +3260,152 @@ Proof.
 Qed.
 
 (* ------------------------------------------------------------------ names and the root storage *)
-Lemma resolve_one_in_names : forall c n p, resolve c 0 [n] = Some p -> In n (all_names c).
+Lemma find_ext_local : forall (A : Type) (f g : A -> bool) l, (forall x, f x = g x) -> find f l = find g l.
 Proof.
-  intros c n p H. cbn [resolve] in H. destruct (child_index c 0 n 0 (all_names c)) as [k|] eqn:E; [|discriminate].
-  destruct (@child_index_some _ _ _ _ _ _ E) as [_ [Hn _]]. apply (nth_error_In _ _ Hn).
+  intros A f g l H. induction l as [|x l IH]; [reflexivity|]. cbn [find]. rewrite H, IH. reflexivity.
 Qed.
 
-(* an object of the root storage is found by resolve *)
-Lemma resolve_one_root : forall c k n, hier_okb c = true -> nth_error (all_names c) k = Some n ->
-  parent_of c k = 0 -> resolve c 0 [n] = Some (N.of_nat (S k)).
+Lemma resolve_one_in_names : forall c n p, resolve c 0 [n] = Some p -> mem_name n (all_names c) = true.
 Proof.
-  intros c k n Hh Hn Hp. cbn [resolve].
-  destruct (child_index c 0 n 0 (all_names c)) as [k'|] eqn:E.
-  - destruct (@child_index_some _ _ _ _ _ _ E) as [_ [Hn' Hp']]. rewrite Nat.sub_0_r in Hn'.
+  intros c n p H. cbn [resolve] in H. destruct (child_index c 0 n 0 (all_names c)) as [k|] eqn:E; [|discriminate].
+  destruct (@child_index_some _ _ _ _ _ _ E) as [_ [[n1 [Hn Hq]] _]]. apply mem_name_spec.
+  exists n1. split; [apply (nth_error_In _ _ Hn)|exact Hq].
+Qed.
+
+(* an object of the root storage is found by resolve, under every case spelling of its name *)
+Lemma resolve_one_root : forall c k n n', hier_okb c = true -> nth_error (all_names c) k = Some n ->
+  parent_of c k = 0 -> name_equiv n n' -> resolve c 0 [n'] = Some (N.of_nat (S k)).
+Proof.
+  intros c k n n' Hh Hn Hp Hq. cbn [resolve].
+  destruct (child_index c 0 n' 0 (all_names c)) as [k'|] eqn:E.
+  - destruct (@child_index_some _ _ _ _ _ _ E) as [_ [[n1 [Hn1 Hq1]] Hp']]. rewrite Nat.sub_0_r in Hn1.
     destruct (hier_facts _ Hh) as [_ [_ Hkey]]. f_equal. f_equal. f_equal.
-    apply Hkey; try (apply nth_error_Some; congruence); congruence.
-  - exfalso. apply (@child_index_none _ _ _ _ _ E k Hn). exact Hp.
+    apply (Hkey k' k n1 n); [congruence|exact Hn1|exact Hn|]. unfold name_equiv in *. congruence.
+  - exfalso. apply (@child_index_none _ _ _ _ _ E k n Hn Hq). exact Hp.
 Qed.
 
 (* no hierarchy written: Cfb::has_directory answers for every object of the file, whatever storage
-   the container puts it in *)
+   the container puts it in, under every case spelling of the name *)
 Theorem has_directory_flat : forall c l fuel, valid_layout c l -> flat_root c l -> (fuel_for l <= fuel)%nat ->
   exists cf r, cfb_new fuel (cfb_write c l) = Ok (cf, r) /\ written_cfb c l cf r /\
-    forall n, plain n -> (has_directory cf n = true <-> In n (all_names c)).
+    forall n, plain n -> has_directory cf n = mem_name n (all_names c).
 Proof.
   intros c l fuel Hv Hfl Hfuel. destruct (cfb_new_written Hv Hfuel) as [cf [r [Hnew Hw]]].
   exists cf, r. split; [exact Hnew|]. split; [exact Hw|]. intros n [H1 H2]. destruct Hw as (Hdirs & _).
   unfold has_directory. rewrite Hdirs, find_entry_flat by (apply children_root_flat; assumption).
   cbn [last_opt]. rewrite (@find_dir_first c l n Hv H1 H2). unfold first_slot.
   destruct (min_slot n (slot_table c l)) as [s|] eqn:E.
-  - split; [intros _|reflexivity]. destruct (min_slot_some _ _ E) as [[it [Hin Hn]] _].
-    rewrite <- Hn. apply (slot_table_names _ _ _ _ Hin).
-  - split; [discriminate|]. intros Hin. exfalso.
+  - symmetry. apply mem_name_spec. destruct (min_slot_some _ _ E) as [[it [Hin Hn]] _].
+    exists (item_name it). split; [apply (slot_table_names _ _ _ _ Hin)|exact Hn].
+  - symmetry. destruct (mem_name n (all_names c)) eqn:M; [|reflexivity]. exfalso.
+    apply mem_name_spec in M. destruct M as [y [Hin Hq]].
     destruct (valid_dir Hv) as [_ [_ [_ [Hlc _]]]].
     rewrite <- (items_names_eq c l Hlc) in Hin. apply in_map_iff in Hin. destruct Hin as [it [Hn Hit]].
-    destruct (@item_in_dirs c l it Hv Hit) as [s [Hs _]]. apply (@min_slot_none _ _ E _ _ Hs). exact Hn.
+    destruct (@item_in_dirs c l it Hv Hit) as [s [Hs _]]. apply (@min_slot_none _ _ E _ _ Hs).
+    unfold item_name. rewrite Hn. exact Hq.
 Qed.
 
-(* no hierarchy written, names distinct over the whole file: a container with both streams reads
-   Workbook, wherever the two entries are; one holding only Book reads Book *)
+(* no hierarchy written, names distinct (up to case) over the whole file: a container with both
+   streams reads Workbook, wherever the two entries are and however the two names are cased (WORKBOOK,
+   workbook, BOOK …); one holding only Book reads Book *)
 Theorem flat_workbook_stream_preferred : forall c l fuel, valid_layout c l -> flat_root c l -> names_unique c ->
   (fuel_for l <= fuel)%nat ->
-  (forall bw, In (WORKBOOK, bw) (c_streams c) -> xls_workbook_stream fuel (cfb_write c l) = Ok bw) /\
-  (forall bb, ~ In WORKBOOK (all_names c) -> In (BOOK, bb) (c_streams c) ->
+  (forall nw bw, name_equiv nw WORKBOOK -> In (nw, bw) (c_streams c) ->
+     xls_workbook_stream fuel (cfb_write c l) = Ok bw) /\
+  (forall nb bb, mem_name WORKBOOK (all_names c) = false -> name_equiv nb BOOK -> In (nb, bb) (c_streams c) ->
      xls_workbook_stream fuel (cfb_write c l) = Ok bb).
 Proof.
   intros c l fuel Hv Hfl Hu Hfuel. destruct workbook_plain as [[W1 W2] [B1 B2]].
   destruct (cfb_new_written Hv Hfuel) as [cf [r [Hnew Hw]]].
   unfold xls_workbook_stream. rewrite Hnew. cbn [obind]. unfold workbook_or_book.
-  assert (G : forall n b, In (n, b) (c_streams c) -> exists c' r', get_stream cf [n] r = Ok (b, c', r')).
-  { intros n b Hin. apply In_nth_error in Hin. destruct Hin as [k Hk].
+  assert (G : forall n n' b, name_equiv n n' -> In (n, b) (c_streams c) ->
+              exists c' r', get_stream cf [n'] r = Ok (b, c', r')).
+  { intros n n' b Hq Hin. apply In_nth_error in Hin. destruct Hin as [k Hk].
     destruct (stream_slot_exists _ Hv Hk) as [s Hs].
-    apply (@get_stream_first c l cf r Hv Hfl Hw k n b s [] Hk Hs). apply (@first_slot_unique c l k n b s Hv Hu Hk Hs). }
+    pose proof (@first_slot_unique c l k n b s Hv Hu Hk Hs) as Hf.
+    destruct (@get_stream_first c l cf r Hv Hfl Hw k n b s [] Hk Hs Hf) as [c' [r' Hg]].
+    exists c', r'. rewrite <- Hg. unfold get_stream. cbn [app]. destruct Hw as (Hdirs & _).
+    rewrite Hdirs, !find_entry_flat by (apply children_root_flat; assumption). cbn [last_opt].
+    assert (Ef : find_dir n' (parsed_dirs c l) = find_dir n (parsed_dirs c l)).
+    { unfold find_dir. apply find_ext_local. intros d. symmetry. apply name_eqb_key_r. exact Hq. }
+    rewrite Ef. reflexivity. }
   split.
-  - intros bw Hin. destruct (G _ _ Hin) as [c' [r' Hg]]. rewrite Hg. reflexivity.
-  - intros bb Hno Hin.
+  - intros nw bw Hq Hin. destruct (G _ _ _ Hq Hin) as [c' [r' Hg]]. rewrite Hg. reflexivity.
+  - intros nb bb Hno Hq Hin.
     assert (Ha : get_stream cf [WORKBOOK] r = Err ERR_NOT_FOUND).
     { apply (@get_stream_absent_flat c l cf r WORKBOOK [] Hv Hfl Hw W1 W2).
-      apply min_slot_none_iff. intros s it Hsi Hn. apply Hno. rewrite <- Hn. apply (slot_table_names _ _ _ _ Hsi). }
-    rewrite Ha. destruct (G _ _ Hin) as [c' [r' Hg]]. rewrite Hg. reflexivity.
+      apply min_slot_none_iff. intros s it Hsi Hn.
+      assert (M : mem_name WORKBOOK (all_names c) = true).
+      { apply mem_name_spec. exists (item_name it). split; [apply (slot_table_names _ _ _ _ Hsi)|exact Hn]. }
+      rewrite M in Hno. discriminate. }
+    rewrite Ha. destruct (G _ _ _ Hq Hin) as [c' [r' Hg]]. rewrite Hg. reflexivity.
+Qed.
+
+(* ------------------------------------------------------------------ any case spelling *)
+(* [MS-CFB] 2.6.4 through its ASCII letters: a lookup depends on the names of the path, and on the
+   names the file stores, only up to case *)
+Lemma flip_case_key : forall c, ascii_upper (flip_case c) = ascii_upper c.
+Proof.
+  intros c. unfold flip_case, ascii_upper.
+  destruct ((97 <=? c) && (c <=? 122)) eqn:E1.
+  - assert (E : (97 <=? c - 32) && (c - 32 <=? 122) = false) by lia. rewrite E. reflexivity.
+  - destruct ((65 <=? c) && (c <=? 90)) eqn:E2.
+    + assert (E : (97 <=? c + 32) && (c + 32 <=? 122) = true) by lia. rewrite E. lia.
+    + rewrite E1. reflexivity.
+Qed.
+
+Lemma respell_equiv : forall flags n, name_equiv n (respell flags n).
+Proof.
+  unfold name_equiv. intros flags n. revert flags. induction n as [|c n IH]; intros [|u flags]; try reflexivity.
+  cbn [respell name_key map]. fold (name_key n). fold (name_key (respell flags n)). rewrite <- IH.
+  destruct u; [rewrite flip_case_key|]; reflexivity.
+Qed.
+
+Lemma respell_path_equiv : forall flags path, Forall2 name_equiv path (respell_path flags path).
+Proof.
+  intros flags path. revert flags. induction path as [|n path IH]; intros [|f flags]; cbn [respell_path].
+  - constructor.
+  - constructor.
+  - constructor; [reflexivity|]. clear IH. induction path; constructor; [reflexivity|assumption].
+  - constructor; [apply respell_equiv|apply IH].
+Qed.
+
+Lemma child_index_key : forall c p n n' names k0, name_equiv n n' ->
+  child_index c p n k0 names = child_index c p n' k0 names.
+Proof.
+  intros c p n n' names. induction names as [|x r IH]; intros k0 H; [reflexivity|].
+  cbn [child_index]. rewrite (name_eqb_key_r x H), (IH _ H). reflexivity.
+Qed.
+
+Lemma resolve_key : forall c path path' p, Forall2 name_equiv path path' ->
+  resolve c p path = resolve c p path'.
+Proof.
+  intros c path path' p H. revert p. induction H as [|n n' path path' Hn _ IH]; intros p; [reflexivity|].
+  cbn [resolve]. rewrite (child_index_key c p (all_names c) 0 Hn).
+  destruct (child_index c p n' 0 (all_names c)); [apply IH|reflexivity].
+Qed.
+
+Theorem spec_path_any_case : forall c path path', Forall2 name_equiv path path' ->
+  spec_path c path = spec_path c path'.
+Proof. intros c path path' H. unfold spec_path. rewrite (resolve_key c 0 H). reflexivity. Qed.
+
+(* the specification does not look at the case of the stored names either: a container whose
+   stream is called WORKBOOK declares a workbook *)
+Lemma spec_stream_any_case : forall c n n', name_equiv n n' -> spec_stream c n = spec_stream c n'.
+Proof.
+  intros c n n' H. unfold spec_stream.
+  rewrite (find_ext_local (fun p => name_eqb (fst p) n) (fun p => name_eqb (fst p) n') (c_streams c)); [reflexivity|].
+  intros p. apply name_eqb_key_r. exact H.
+Qed.
+
+(* MAIN (C13, CFB-1): a stream is read back under EVERY case spelling of the names of its path *)
+Theorem layout_independent_any_case : forall c l fuel, valid_layout c l -> linked_tree c l ->
+  (fuel_for l <= fuel)%nat ->
+  forall path b flags, spec_path c path = Some b ->
+    cfb_get_stream fuel (cfb_write c l) (respell_path flags path) = Ok b.
+Proof.
+  intros c l fuel Hv Ht Hfuel path b flags Hs.
+  apply (layout_independent Hv Ht Hfuel). rewrite <- (spec_path_any_case c (respell_path_equiv flags path)). exact Hs.
 Qed.
 
 (* ================================================================== Part 5: totality *)
